@@ -540,6 +540,84 @@ class Item:
                                   "(result unconstrained)" % n_total})
         return self
 
+    def inline_local_callees(self, X, file, exclude=(), max_rounds=3):
+        """R9, generic: a call `helper(a1, .., an)` of a free function defined in the same file (and not one of the unit's shims) is
+        replaced by the block `{ let p1 = a1; ..; let pn = an; BODY }` with the helper's own body text, provided the body has no
+        `return` and no `?`.  This is what a compiler inliner does; it lets the caller's contract see through a helper that a
+        refactoring extracted, instead of needing a contract for it."""
+        src_file = X.read(file)
+        for _ in range(max_rounds):
+            changed = False
+            for m in list(re.finditer(r"(?<![\w.:>])([a-z_][a-z0-9_]*)\(", self.text)):
+                name = m.group(1)
+                if name in exclude or name in ("if", "while", "match", "for", "return", "loop", "fn", "let", "assert", "proof", "forall", "exists"):
+                    continue
+                if re.search(r"\bfn\s+%s\b" % name, self.text):
+                    continue   # defined inside this item (nested fn)
+                toks, idx = X._find_item(src_file, "fn", name)
+                if idx is None:
+                    continue
+                s0, e0 = X._item_span(src_file, toks, idx)
+                callee = src_file[s0:e0]
+                ctoks = code_tokens(callee)
+                k = next(i for i, t in enumerate(ctoks) if callee[t[1]:t[2]] == "fn")
+                # parameter list
+                po = next(i for i in range(k, len(ctoks)) if callee[ctoks[i][1]] == "(")
+                pc = match_brace(callee, ctoks, po, "(", ")")
+                params_txt = callee[ctoks[po][2]:ctoks[pc][1]]
+                bo = find_block_open(callee, ctoks, k)
+                if bo is None:
+                    continue
+                bc = match_brace(callee, ctoks, bo)
+                body = callee[ctoks[bo][2]:ctoks[bc][1]]
+                if re.search(r"\breturn\b|\?\s*[;)\n.]", body) or "self" in params_txt or "<" in callee[ctoks[k][1]:ctoks[po][1]]:
+                    continue
+                params = []
+                depth = 0
+                cur = ""
+                for ch in params_txt:
+                    if ch in "(<[":
+                        depth += 1
+                    elif ch in ")>]":
+                        depth -= 1
+                    if ch == "," and depth == 0:
+                        params.append(cur)
+                        cur = ""
+                    else:
+                        cur += ch
+                if cur.strip():
+                    params.append(cur)
+                pnames = [p_.split(":", 1)[0].strip().replace("mut ", "") for p_ in params]
+                ptypes = [p_.split(":", 1)[1].strip() for p_ in params]
+                # the call's arguments
+                ttoks = code_tokens(self.text[m.end() - 1:])
+                close = match_brace(self.text[m.end() - 1:], ttoks, 0, "(", ")")
+                end = m.end() - 1 + ttoks[close][2]
+                args_txt = self.text[m.end():end - 1]
+                args, depth, cur = [], 0, ""
+                for ch in args_txt:
+                    if ch in "([{":
+                        depth += 1
+                    elif ch in ")]}":
+                        depth -= 1
+                    if ch == "," and depth == 0:
+                        args.append(cur)
+                        cur = ""
+                    else:
+                        cur += ch
+                if cur.strip():
+                    args.append(cur)
+                if len(args) != len(pnames):
+                    continue
+                block = "{ " + " ".join("let %s: %s = %s;" % (pn, pt, a.strip()) for pn, pt, a in zip(pnames, ptypes, args)) + body + " }"
+                self.text = self.text[:m.start()] + block + self.text[end:]
+                self.rewrites.append({"rule": "R9", "what": "call of local helper `%s` (%s) inlined at its call site" % (name, file)})
+                changed = True
+                break
+            if not changed:
+                break
+        return self
+
     def insert_after(self, anchor, text, why):
         """Insert proof text (ghost code only) after the first occurrence of an anchor statement."""
         n = self.text.count(anchor)
